@@ -180,3 +180,10 @@ Example ex_dedup :
   | _ => (false, [], None)
   end = (true, [2; 4; 4], Some ([2; 4], [0; 1; 1; 1])).
 Proof. vm_compute. reflexivity. Qed.
+
+(* squash: [0,3) [3,5) of (2,0) abut and merge; (2,1) and the later (2,0) piece stay *)
+From TskVerif Require Import C07.SquashProofs.
+Example ex_squash :
+  squash_edges Qmerge [mkE 3 5 2 0; mkE 0 3 2 0; mkE 0 10 2 1; mkE 7 10 2 0]
+  = Ok [mkE 0 5 2 0; mkE 7 10 2 0; mkE 0 10 2 1].
+Proof. vm_compute. reflexivity. Qed.
